@@ -47,7 +47,8 @@ for d in dirs:
     b = subprocess.run(["go", "build", "./..."], cwd=wt, env=env, capture_output=True, text=True)
     rec["builds"] = b.returncode == 0
     rec["checks"] = {}
-    for pid in [prop] + list(extra):
+    plist = os.environ["EVAL_PROPS"].split(",") if os.environ.get("EVAL_PROPS") else [prop] + list(extra)
+    for pid in plist:
         t0 = time.time()
         try:
             c = subprocess.run(["./check", pid, "--tier", "quick"], cwd=vcopy, env=env, capture_output=True, text=True, timeout=1500)
